@@ -78,12 +78,17 @@ structure Cfg where
   onExc : Bool                     -- the machine has on_exception callbacks
   async : Bool                     -- AsyncTimeout (routing of handler errors) / Timeout
   resolve : Nat → Nat → Option Step
+  /-- the key under which a state's `runner` dict files a model's timer.  The code uses `id(model)`:
+  the identity function on models (distinct model objects never share a key).  A coarser function — a
+  dict keyed by the model object itself looks it up by `__eq__`/`__hash__`, so two equal-comparing
+  models share a key — is what `C17_coarse_key_counterexample` is about. -/
+  key : Nat → Nat := id
 
 structure St where
   now : Nat
   cur : Nat → Nat                       -- model ↦ current (leaf) state
   timers : List Timer                   -- every Timer object ever created, in creation order
-  runner : Nat → Nat → Option Nat       -- state ↦ model ↦ index of the timer in `state.runner[id(model)]`
+  runner : Nat → Nat → Option Nat       -- state ↦ key of the model ↦ index of the timer in `state.runner[id(model)]`
   log : List Rec
   leaked : Bool                         -- ghost: some `enter` overwrote a timer that was still waiting
   tie : Bool                            -- ghost: some `exit` cancelled a timer at the very instant it was due
@@ -120,14 +125,14 @@ def tEnter (cfg : Cfg) (m s : Nat) (st : St) : St :=
   if 0 < cfg.timeout s then
     { st with
       timers := st.timers ++ [{ deadline := st.now + cfg.timeout s, m := m, s := s, phase := .waiting }]
-      runner := fun s' m' => if s' = s ∧ m' = m then some st.timers.length else st.runner s' m'
-      leaked := st.leaked || slotWaiting st s m
+      runner := fun s' k' => if s' = s ∧ k' = cfg.key m then some st.timers.length else st.runner s' k'
+      leaked := st.leaked || slotWaiting st s (cfg.key m)
       log := st.log ++ [.enter m s] }
   else st.emit (.enter m s)
 
 /-- `Timeout.exit` (states.py:105-110, asyncio.py:658-672), then the on_exit recorder -/
-def tExit (m s : Nat) (st : St) : St :=
-  let st1 : St := match st.runner s m with
+def tExit (cfg : Cfg) (m s : Nat) (st : St) : St :=
+  let st1 : St := match st.runner s (cfg.key m) with
     | some i =>
       match st.timers[i]? with
       | some t =>
@@ -140,7 +145,7 @@ def tExit (m s : Nat) (st : St) : St :=
   st1.emit (.exit m s)
 
 def act (cfg : Cfg) (m : Nat) (st : St) (a : Bool × Nat) : St :=
-  if a.1 then tEnter cfg m a.2 st else tExit m a.2 st
+  if a.1 then tEnter cfg m a.2 st else tExit cfg m a.2 st
 
 def acts (cfg : Cfg) (m : Nat) (prog : List (Bool × Nat)) (st : St) : St := prog.foldl (act cfg m) st
 
